@@ -296,4 +296,25 @@ theorem display_text_eq_spec (B : Nat) (hB : 2 ≤ B) (m : Mode) (plus : Bool) (
             intro h; exact printSpec_ne_nil' B hB _ (List.append_eq_nil_iff.mp h).1
           rw [fpL_int_zeros _ hne p]
 
+/-- what `Repr::new` returns writes zero with exponent 0 -/
+theorem new_zero_exp (B : Nat) (hB : 2 ≤ B) (s e : Int) :
+    (FRepr.new B s e).signif = 0 → (FRepr.new B s e).exp = 0 := by
+  intro h
+  by_cases hs : s = 0
+  · subst hs; simp [FRepr.new]
+  · exfalso
+    have hv := FRepr.new_value B (by omega) s e
+    unfold FRepr.toRat at hv
+    rw [h] at hv
+    have hp := bpowQ_pos B (by omega) e
+    have hsq : (s : ℚ) ≠ 0 := by exact_mod_cast hs
+    have : (s : ℚ) * bpowQ B e ≠ 0 := mul_ne_zero hsq (ne_of_gt hp)
+    apply this
+    rw [← hv]; simp
+
+/-- `Display` of everything `Repr::new` returns is the specification text -/
+theorem display_text_eq_spec_new (B : Nat) (hB : 2 ≤ B) (m : Mode) (plus : Bool) (prec : Option Nat) (s e : Int) :
+    fmtRound B m { plus := plus } prec (FRepr.new B s e) = displaySpec B m plus prec (FRepr.new B s e) :=
+  display_text_eq_spec B hB m plus prec _ (new_zero_exp B hB s e)
+
 end Dashu.Model.Text
